@@ -1362,8 +1362,6 @@ pub fn units() -> Vec<Unit> {
             CustomMulti(crate::dispatch::next_lower),
         ],
     },
-        ],
-    },
     // ---- builder G (tie A for the `LoRa<RK, DLY>` state machine, C14): translated by `loraapi.rs`
     Unit { module: "Gen.LoRaApiFn", file: "lora-phy/src/lib.rs", more_files: vec!["lora-phy/src/mod_params.rs"], imports: vec![], items: vec![] },
     ]
